@@ -364,16 +364,18 @@ func c09Iterator(c *Ctx) {
 	}
 	c.saw(qname(f))
 	n := 0
-	for _, s := range sitesOf(f) {
+	kind := func(s Site) (isGet, isAdd, isFallback bool) {
 		cn := s.CalleeName()
-		isGet := strings.HasSuffix(cn, "Cache[K, V]).Get")
-		isAdd := strings.HasSuffix(cn, "Cache[K, V]).Add")
-		isFallback := cn == "dynamic" && strings.Contains(term(s.Instr.Common().Value), "fallbackFunc")
-		if !isGet && !isAdd && !isFallback {
-			continue
-		}
+		isGet = strings.HasSuffix(cn, "Cache[K, V]).Get")
+		isAdd = strings.HasSuffix(cn, "Cache[K, V]).Add")
+		isFallback = cn == "dynamic" && strings.Contains(term(s.Instr.Common().Value), "fallbackFunc")
+		return
+	}
+	for _, ds := range p.deepSites(f, func(s Site) bool { g, a, fb := kind(s); return g || a || fb }, 2) {
+		s := ds.Site
+		_, isAdd, isFallback := kind(s)
 		n++
-		d := p.mustHoldAt(s.Instr)
+		d := p.mustHoldDeep(ds)
 		ok, miss := everyDisjunctHas(d, []string{"^!", "% 8192)) == it.runningFilter.FromBlock()"})
 		what := "cache lookup"
 		if isAdd {
@@ -398,7 +400,7 @@ func c09Iterator(c *Ctx) {
 		}
 		for _, s := range sitesOf(fn) {
 			if strings.HasSuffix(s.CalleeName(), "Cache[K, V]).Add") && strings.Contains(typeShort(s.Args()[0].Type()), "EventFiltersCacheKey") {
-				okw := fn == f || fn.Name() == "SetMany"
+				okw := fn == f || fn.Name() == "SetMany" || p.calledOnlyFrom(fn, "loadNextWindow", 0)
 				c.check(okw, "running-precedence", "cache writer "+qname(fn), p.Pos(s.Pos()), "only the iterator (after the bounds check) and SetMany fill the cache", "aggregated filters are added to the cache from an unexpected place")
 			}
 		}
@@ -661,7 +663,7 @@ func c09StorePairing(c *Ctx) {
 			c.check(ok, "store-pairing", qname(fn)+" → "+want, p.Pos(s.Pos()), "block content and event index change in one batch on every success path", "a block is "+what+" without the running event filter following in the same batch: the index and the chain diverge")
 		}
 	}
-	if n < 6 {
+	if n < 3 {
 		c.und("store-pairing", "statebackend", "", fmt.Sprintf("only %d content writers found", n))
 	}
 }
@@ -876,7 +878,14 @@ func c09EmptyPosition(c *Ctx) {
 		seen[v] = true
 		switch x := v.(type) {
 		case *ssa.Phi:
-			for _, e := range x.Edges {
+			for i, e := range x.Edges {
+				// a constant assigned under the outcome of a bloom test (`if Test(k) { flag = true }`) is test evidence
+				if _, isConst := e.(*ssa.Const); isConst && i < len(x.Block().Preds) {
+					if fs := factsAtBlock(x.Block().Preds[i]); len(fs) > 0 && isBloomTest(fs[0].Cond) {
+						s.tests++
+						continue
+					}
+				}
 				walk(e, neg, s, seen)
 			}
 		case *ssa.UnOp:
@@ -931,7 +940,14 @@ func c09EmptyPosition(c *Ctx) {
 					case s.tests == 0:
 						why = "the condition that selects this return involves no bloom test"
 					case constSame:
-						why = "the flag that selects this return can take this value without any bloom test (constant initial value)"
+						// the constant initial value is harmless if the loop that performs the tests is known to run at least
+						// once here: the key set of this position is non-empty on every path to this return
+						d := p.mustHoldAt(ret.Ret)
+						if ne, _ := everyDisjunctHas(d, []string{"^!", "(len(", " == 0)"}, []string{"(len(", " > 0)"}, []string{"(len(", " != 0)"}); ne && len(d) > 0 {
+							okEv = true
+						} else {
+							why = "the flag that selects this return can take this value without any bloom test (constant initial value, and the key set is not known to be non-empty)"
+						}
 					default:
 						okEv = true
 					}
